@@ -34,7 +34,7 @@ BULK = {"add_nodes_from", "add_edges_from", "add_simplices_from"}
 def run(ctx):
     repo = ctx.repo
     res = Result(PROP)
-    res.rules = ["A1-DEEP", "A1-STRUCT", "A1-SHALLOW", "A1-MUT", "A2", "A3", "U-OWN", "U-COPY"]
+    res.rules = ["A1-DEEP", "A1-STRUCT", "A1-SHALLOW", "A1-MUT", "A2", "A3", "U-OWN", "U-COPY", "U-PROV", "U-GUARD", "U-BUMP", "R-ENC"]
     res.explanation = (
         "Escape rules at every network-to-network transfer site (3 copy methods, the isinstance(data, <network class>) "
         "branches of the converters the constructors delegate to) and on every table store of the three classes: source "
@@ -53,9 +53,20 @@ def run(ctx):
     res.floor("transfer flows examined", n_flows, 30)
     check_mutator_stores(repo, res)
     # "both keep assigning fresh edge IDs": the counter's owners and its transfer (shared with C04)
-    from .c04_uid import check_owners
+    from ..effects import Effects
+    from .c04_uid import check_owners, site_checks
+    from .incidence_rules import check_enc
 
     check_owners(repo, res, PROP)
+    # the network-to-network constructors rebuild the new network through the bulk adders with the source's own IDs;
+    # "both keep assigning fresh edge IDs" then needs the per-site counter rules of every class (U-GUARD, U-BUMP: the
+    # counter passes every transferred ID), and "independent" needs that nothing outside the classes writes the
+    # tables (R-ENC: a converter that fills the new network's tables itself can share the source's member sets)
+    if not ctx.only:
+        eng = Effects(repo)
+        n, _ = site_checks(ctx, repo, eng, res, tuple(CORE_CLASSES), PROP)
+        res.floor("insertion sites of new edge keys (all classes)", n, 8)
+        check_enc(ctx, res, PROP, eng)
     return res
 
 
